@@ -122,4 +122,48 @@ theorem pop_eq_ok {d : AList κ ν} {x : κ} {v : ν} {d' : AList κ ν} :
     intro _
     exact eq_comm
 
+theorem mem_keys_of_mem_keys_erase (d : AList κ ν) (x y : κ) (h : y ∈ keys (erase d x)) : y ∈ keys d := by
+  induction d with
+  | nil => simp [erase, keys] at h
+  | cons p t ih =>
+    obtain ⟨k, w⟩ := p
+    by_cases hk : k = x
+    · simp only [erase, hk, ↓reduceIte] at h
+      simp only [keys, List.map_cons, List.mem_cons]
+      exact Or.inr h
+    · simp only [erase, hk, ↓reduceIte, keys, List.map_cons, List.mem_cons] at h ⊢
+      rcases h with h | h
+      · exact Or.inl h
+      · exact Or.inr (ih h)
+
+theorem nodup_keys_erase (d : AList κ ν) (x : κ) (h : (keys d).Nodup) : (keys (erase d x)).Nodup := by
+  induction d with
+  | nil => simp [erase, keys]
+  | cons p t ih =>
+    obtain ⟨k, w⟩ := p
+    simp only [keys, List.map_cons, List.nodup_cons] at h
+    by_cases hk : k = x
+    · simp only [erase, hk, ↓reduceIte]
+      exact h.2
+    · simp only [erase, hk, ↓reduceIte, keys, List.map_cons, List.nodup_cons]
+      exact ⟨fun hm => h.1 (mem_keys_of_mem_keys_erase t x k hm), ih h.2⟩
+
+theorem not_mem_keys_erase_self (d : AList κ ν) (x : κ) (h : (keys d).Nodup) : x ∉ keys (erase d x) := by
+  rw [← lookup_isSome_iff_mem_keys, lookup_erase_same d x h]
+  simp
+
+theorem lookup_of_mem (d : AList κ ν) (h : (keys d).Nodup) (e : κ × ν) (he : e ∈ d) : lookup d e.1 = some e.2 := by
+  induction d with
+  | nil => simp at he
+  | cons a t ih =>
+    obtain ⟨k, v⟩ := a
+    simp only [keys, List.map_cons, List.nodup_cons] at h
+    rcases List.mem_cons.1 he with h' | h'
+    · subst h'; simp [lookup]
+    · have hk : k ≠ e.1 := by
+        intro hke; subst hke
+        exact h.1 (List.mem_map.2 ⟨e, h', rfl⟩)
+      simp only [lookup, hk, ↓reduceIte]
+      exact ih h.2 h'
+
 end Xdist.AList
